@@ -625,13 +625,33 @@ func H_C09_stalled_flushing_blocks_producers_within_a_bound() {
 	}
 }
 
-//vp:bounds every configuration field that NewBloomSearchEngine validates is an unconstrained value; IngestBufferSize and MaxQueryConcurrency 1..3 on the accepting path
+//vp:bounds every integer configuration field that NewBloomSearchEngine validates is an unconstrained value (ZstdCompressionLevel included); RowDataCompression drawn from "", none, snappy, zstd and an unknown name; BloomFalsePositiveRate from 0.01, 0 and 1; IngestBufferSize and MaxQueryConcurrency 1..3 on the accepting path
 func H_C09_constructor_sizes_the_queues_from_the_configuration() {
 	cfg := BloomSearchEngineConfig{
 		Tokenizer: BasicWhitespaceLowerTokenizer, MaxRowGroupRows: nondetInt(), MaxRowGroupBytes: nondetInt(),
 		MaxFileSize: nondetInt(), MaxBufferedRows: nondetInt(), MaxBufferedBytes: nondetInt(), MaxBufferedTime: time.Duration(nondetInt64()),
 		IngestBufferSize: nondetInt(), BloomFalsePositiveRate: 0.01, MaxQueryConcurrency: nondetInt(), MaxFilesToMergePerOperation: nondetInt(),
-		RowDataCompression: CompressionNone,
+		RowDataCompression: CompressionNone, ZstdCompressionLevel: nondetInt(),
+	}
+	compOK := true
+	switch nondetChoice(5) {
+	case 1:
+		cfg.RowDataCompression = ""
+	case 2:
+		cfg.RowDataCompression = CompressionSnappy
+	case 3:
+		cfg.RowDataCompression = CompressionZstd
+		compOK = cfg.ZstdCompressionLevel >= 1 && cfg.ZstdCompressionLevel <= 22
+	case 4:
+		cfg.RowDataCompression = "lz77"
+		compOK = false
+	}
+	rateOK := true
+	switch nondetChoice(3) {
+	case 1:
+		cfg.BloomFalsePositiveRate, rateOK = 0, false
+	case 2:
+		cfg.BloomFalsePositiveRate, rateOK = 1, false
 	}
 	if cfg.IngestBufferSize > 0 {
 		vpAssume(cfg.IngestBufferSize <= 3)
@@ -642,12 +662,13 @@ func H_C09_constructor_sizes_the_queues_from_the_configuration() {
 	w := vpNewWorld()
 	b, err := NewBloomSearchEngine(cfg, &vpMeta{w}, &vpStore{w})
 	valid := cfg.MaxRowGroupRows > 0 && cfg.MaxRowGroupBytes > 0 && cfg.MaxFileSize > 0 && cfg.MaxBufferedRows > 0 && cfg.MaxBufferedBytes > 0 &&
-		cfg.MaxBufferedTime > 0 && cfg.IngestBufferSize > 0 && cfg.MaxQueryConcurrency > 0 && cfg.MaxFilesToMergePerOperation >= 2
+		cfg.MaxBufferedTime > 0 && cfg.IngestBufferSize > 0 && cfg.MaxQueryConcurrency > 0 && cfg.MaxFilesToMergePerOperation >= 2 && compOK && rateOK
 	if !valid {
 		vpAssert(err != nil && b == nil && errors.Is(err, ErrInvalidConfig), "C09: an invalid configuration was accepted")
 		return
 	}
 	vpAssert(err == nil && b != nil, "C09: a valid configuration was rejected")
+	vpAssert(b.config.RowDataCompression != "" && (cfg.RowDataCompression == "" || b.config.RowDataCompression == cfg.RowDataCompression), "C17: the engine does not write an explicit compression type / changed the configured one")
 	vpAssert(cap(b.ingestChan) == cfg.IngestBufferSize, "C09: the ingest buffer is not IngestBufferSize deep")
 	vpAssert(cap(b.flushChan) == 1, "C09: the flush queue is not one request deep")
 	vpAssert(cap(b.querySemaphore) == cfg.MaxQueryConcurrency, "C22: the query semaphore does not have MaxQueryConcurrency slots")
